@@ -449,8 +449,16 @@ var natives = map[string]extFn{
 	},
 	"sort.Strings": func(e *Engine, _ *frame, _ *ssa.Function, a []value) value {
 		s := a[0].([]value)
+		less := func(x, y value) bool {
+			xs, xc := x.(string)
+			ys, yc := y.(string)
+			if xc && yc {
+				return xs < ys
+			}
+			return e.truth(e.strBinop(token.LSS, x, y)) // symbolic bytes: the comparison forks
+		}
 		for i := 1; i < len(s); i++ {
-			for j := i; j > 0 && e.needStr(s[j], "sort.Strings") < e.needStr(s[j-1], "sort.Strings"); j-- {
+			for j := i; j > 0 && less(s[j], s[j-1]); j-- {
 				e.logStore(&s[j])
 				e.logStore(&s[j-1])
 				s[j], s[j-1] = s[j-1], s[j]
